@@ -34,7 +34,11 @@ R = [
  # capi
  (r"biscuit_capi::\w+::\{closure#0\}(::\{closure#0\})?\|RefCell::borrow(_mut)?\|0$", "thread-local RefCell borrowed for the duration of one closure that calls no other capi function: no re-entrant borrow"),
  (r"biscuit_capi::key_pair_new\|slice::copy_from_slice\|0$|biscuit_capi::biscuit_builder_build\|slice::copy_from_slice\|0$", "destination is [u8; 32] and the source length was tested != 32 -> return on the dominating branch"),
- (r"biscuit_capi::key_pair_serialize\|slice::copy_from_slice\|0$", "private keys serialise to 32 bytes for both algorithms (ed25519 SecretKey, P-256 scalar); buffer is 32 bytes by contract"),
+ (r"biscuit_capi::key_pair_serialize\|slice::copy_from_slice\|0$", "private keys serialise to 32 bytes for both algorithms (ed25519 SecretKey, P-256 scalar); buffer is 32 bytes by contract (C19 rule SIZE)"),
+ (r"biscuit_capi::(BiscuitBuilder|BlockBuilder|AuthorizerBuilder)::\w+\|Option::unwrap\|0$", "self.0.take().unwrap(): the handle always holds Some - every wrapper stores Some(..) back on every exit (C19 rule PAIR checks this on every run) and constructors create Some"),
+ (r"biscuit_capi::(biscuit_builder_build|biscuit_append_block)\|Option::expect\|0$", "builder.0 is always Some (C19 rule PAIR)"),
+ (r"biscuit_capi::authorizer_builder_build(_unauthenticated)?\|Option::unwrap\|0$", "builder.0 is always Some (C19 rule PAIR); the NULL handle itself is returned through `?`"),
+ (r"biscuit_capi::biscuit_serialize(_sealed)?\|slice::copy_from_slice\|0$", "buffer length is serialized_size() and the bytes are to_vec() of the same token: equal by construction (C19 rule SIZE checks the same-object wiring)"),
 ]
 R = [(re.compile(a), b) for a, b in R]
 
